@@ -541,10 +541,13 @@ fn trivia_lines(rng: &mut Rng, newlines: u64) -> String {
     let mut out = String::new();
     let mut left = newlines;
     while left > 0 {
-        let choice = rng.below(6);
+        let choice = rng.below(7);
         if choice == 5 && left >= 2 {
             out.push_str("/* a comment that\n   spans two lines */\n");
             left -= 2;
+        } else if choice == 6 {
+            out.push_str(&format!("// {}\n", w3::multibyte_text(rng)));
+            left -= 1;
         } else {
             out.push_str(
                 ["\n", "// inserted by the simulator\n", "/* inserted */\n", "   \t\n", "\\\n"]
@@ -1315,6 +1318,25 @@ pub fn judge(case: &Case, rep: &mut Report) {
             } else {
                 b.kind == a.kind && message(&a.text) == message(&b.text)
             };
+            if !same && case.label.starts_with("W3:") {
+                // One shape is outside what the statement's two exceptions settle: a bare line
+                // break that, after argument substitution, ends up between the name of a
+                // function-like macro and its "(" (RSSL does not look across it, C does). The
+                // reference model recognises exactly that shape in the variant.
+                // (the model does not read splices: it is shown the same insertions with every
+                // splice replaced by a blank)
+                let mut tt = tx.threads[0].tasks[0].clone();
+                for f in tt.faults.iter_mut() {
+                    if f.kind == FaultKind::Trivia {
+                        f.b = 1;
+                    }
+                }
+                let mv = model::run(&case.fss[tt.fs], &tt.faults, &tt.entry, &tt.defines);
+                if matches!(&mv.verdict, Verdict::Unmodelled(why) if why.starts_with("line break between a function-like macro name and (")) {
+                    rep.count("trivia_not_judged_line_break_reaches_a_macro_name_by_substitution", 1);
+                    return;
+                }
+            }
             if !same {
                 rep.findings.push(finding(
                     "trivia",
